@@ -288,9 +288,12 @@ func runSignal(rc *kernel.RunCtx, k *kernel.Kernel) {
 			if fmt.Sprint(calls) != fmt.Sprint(want) {
 				k.Fail("shutdown-sequence", "SignalHandler.Handle", fmt.Sprintf(
 					"Shutdown was called on services %v, want every registered service once in reverse order %v (outcomes: %s)", calls, want, outcomes(svcs)))
-			} else if (status == osutil.ExitCodeSuccess) != allNil {
+			} else if status == osutil.ExitCodeSuccess && !allNil {
 				k.Fail("exit-status", "SignalHandler.Handle", fmt.Sprintf(
-					"Handle returned status %d; all services returned nil: %v (outcomes: %s)", status, allNil, outcomes(svcs)))
+					"Handle returned ExitCodeSuccess although not every service's Shutdown returned nil (outcomes: %s)", outcomes(svcs)))
+			} else if status != osutil.ExitCodeSuccess && allNil {
+				// Only "success only if all returned nil" is stated.
+				rc.Stats.Probe("failure-status-although-all-nil")
 			}
 		}
 	}
@@ -376,6 +379,7 @@ type refreshSim struct {
 	finalErr         error
 	onShutdown       bool
 	errSeq           int
+	finalHandled     bool
 	errPool          []error
 	ctxSeq           int
 	simTime          time.Duration
@@ -470,7 +474,9 @@ func (sc simSchedule) UntilNext(now time.Time) time.Duration {
 		s.k.Logf("  UntilNext = ", d.String())
 		if s.isLoop() {
 			if !s.haveNow || !now.Equal(s.lastNow) {
-				s.fail("schedule-wrong-now", "UntilNext was not given the clock's current time")
+				// Not constrained by the statement (the time received from
+				// the timer would do as well): counted only.
+				s.rc.Stats.Probe("untilnext-not-given-clock-now")
 			}
 			s.lastUntil, s.haveUntil = d, true
 		}
@@ -489,7 +495,9 @@ func (c simCons) New(parent context.Context) (context.Context, context.CancelFun
 	s.k.Tell("ctxcons.New", func() {
 		t := s.k.LastRun()
 		if _, ok := s.made[t]; ok {
-			s.fail("context-unused", "a constructed context was never passed to Refresh")
+			// Constructing a context that is never used is wasteful but not
+			// excluded by the statement: counted only.
+			s.rc.Stats.Probe("constructed-context-unused")
 		}
 		s.made[t] = madeCtx{ctx: ctx, parent: parent}
 	})
@@ -510,10 +518,10 @@ func (r simRefresher) Refresh(ctx context.Context) error {
 		switch {
 		case !ok || ctx != m.ctx:
 			s.fail("wrong-context", "Refresh was not given the context just produced by the ContextConstructor")
-		case byLoop && m.parent != s.startCtx:
-			s.fail("wrong-context", "the worker's refresh context is not derived from the context given to Start")
-		case !byLoop && m.parent != s.shutdownCtx:
-			s.fail("wrong-context", "the final refresh context is not derived from the context given to Shutdown")
+		case byLoop && m.parent != s.startCtx, !byLoop && m.parent != s.shutdownCtx:
+			// Which parent the constructor is given is not part of the
+			// statement: counted only.
+			s.rc.Stats.Probe("refresh-context-parent-unexpected")
 		}
 		delete(s.made, s.k.LastRun())
 		if byLoop {
@@ -571,8 +579,16 @@ func (h simErrHandler) Handle(_ context.Context, err error) {
 	s.k.Ask("errhandler.Handle", func() any {
 		s.k.Logf("  ErrorHandler.Handle")
 		switch {
+		case s.pendingErr == nil && err != nil && err == s.finalErr && !s.finalHandled:
+			// The final refresh's error is returned by Shutdown; whether it
+			// is also handed to the ErrorHandler (once) is left open by the
+			// statement.
+			s.finalHandled = true
+			s.rc.Stats.Probe("final-error-also-handled")
+
+			return nil
 		case s.pendingErr == nil:
-			s.fail("spurious-error-handling", "the ErrorHandler was called without a pending Refresh error (nil error, twice, or the final refresh's error)")
+			s.fail("spurious-error-handling", "the ErrorHandler was called without a pending Refresh error (nil error or the same error twice)")
 		case err != s.pendingErr:
 			s.fail("wrong-error", "the ErrorHandler did not receive the error returned by Refresh")
 		}
